@@ -195,7 +195,7 @@ impl_dyn_cipher!(c2_chacha::XChaCha8);
 impl_dyn_cipher!(c2_chacha::XChaCha12);
 impl_dyn_cipher!(c2_chacha::XChaCha20);
 
-pub fn new_cipher(name: &str, key: &[u8; 32], nonce: &[u8]) -> Box<dyn DynCipher> {
+pub fn new_cipher(name: &str, key: &[u8; 32], nonce: &[u8]) -> Box<dyn DynCipher + Send> {
     use cipher::generic_array::GenericArray as GA;
     // key and nonce are handed over from seeded byte offsets inside a larger buffer (as if cut
     // out of a packet), so their addresses are not word-aligned in general
@@ -211,7 +211,7 @@ pub fn new_cipher(name: &str, key: &[u8; 32], nonce: &[u8]) -> Box<dyn DynCipher
     if key[0] & 1 == 1 {
         macro_rules! nfs {
             ($t:ty) => {
-                Box::new(<$t as NewCipher>::new_from_slices(&key[..], nonce).expect("new_from_slices with correct lengths")) as Box<dyn DynCipher>
+                Box::new(<$t as NewCipher>::new_from_slices(&key[..], nonce).expect("new_from_slices with correct lengths")) as Box<dyn DynCipher + Send>
             };
         }
         return match name {
@@ -333,7 +333,7 @@ macro_rules! skein_menu {
             impl_dyn_hash!(skein_hash::Skein512<$u>);
             impl_dyn_hash!(skein_hash::Skein1024<$u>);
         )*
-        fn new_skein(state_bytes: usize, n: usize) -> Box<dyn DynHash> {
+        fn new_skein(state_bytes: usize, n: usize) -> Box<dyn DynHash + Send> {
             match (state_bytes, n) {
                 $(
                     (32, $n) => Box::new(<skein_hash::Skein256<$u> as Default>::default()),
@@ -468,7 +468,7 @@ impl HashId {
             Fam::Skein => self.bits as usize / 8,
         }
     }
-    pub fn new(&self) -> Box<dyn DynHash> {
+    pub fn new(&self) -> Box<dyn DynHash + Send> {
         match (self.fam, self.bits) {
             (Fam::Blake, 224) => Box::new(blake_hash::Blake224::default()),
             (Fam::Blake, 256) => Box::new(blake_hash::Blake256::default()),
